@@ -23,7 +23,7 @@ def load(repo=None, fresh=False, shim='value'):
         return _loaded[1]
     sys.dont_write_bytecode = True
     from . import symnumpy
-    from .scalar import sym_isinstance
+    from .scalar import sym_isinstance, sym_max, sym_min
     if shim == 'shape':
         from . import shapetorch as symtorch
     else:
@@ -47,7 +47,7 @@ def load(repo=None, fresh=False, shim='value'):
             warnings.simplefilter('ignore')
             import torchtt
             import torchtt._tt_base, torchtt._extras, torchtt._decomposition, torchtt._aux_ops  # noqa
-            import torchtt.manifold, torchtt.nn, torchtt.grad, torchtt._dmrg  # noqa
+            import torchtt.manifold, torchtt.nn, torchtt.grad, torchtt._dmrg, torchtt.interpolate  # noqa
     finally:
         sys.path.remove(repo)
         sys.modules['numpy'] = real_np
@@ -60,6 +60,8 @@ def load(repo=None, fresh=False, shim='value'):
     for name, m in list(sys.modules.items()):
         if (name == 'torchtt' or name.startswith('torchtt.')) and m is not None:
             m.isinstance = sym_isinstance
+            m.max = sym_max
+            m.min = sym_min
             if shim == 'shape' and hasattr(m, 'rank_chop'):
                 m.rank_chop = _havoc_rank_chop          # stub: any rank in [1, len(s)] (the kernel itself is checked under C01)
     torchtt.__tv_shim__ = shim
